@@ -1,9 +1,13 @@
+#![feature(allocator_api)]
 use vstd::prelude::*;
 use std::iter::Zip;
 use std::mem;
 use std::num::NonZeroUsize;
 use std::slice;
 verus! {
+
+pub assume_specification<T, A: core::alloc::Allocator, I: IntoIterator<Item = T>> [<Vec<T, A> as Extend<T>>::extend::<I>] (v: &mut Vec<T, A>, it: I)
+    ensures final(v)@.len() >= old(v)@.len();
 
 pub enum PlayerNum { One, Two }
 
@@ -34,6 +38,7 @@ pub struct MutexRegretInfoset {
     pub strat: Box<[f64]>,
 }
 
+#[verifier::exec_allows_no_decreases_clause]
 fn thread_threshold<'a>(
     root: &'a Node,
     chance_infosets: &[impl ChanceRecurse],
@@ -41,7 +46,10 @@ fn thread_threshold<'a>(
     target: NonZeroUsize,
     queue: &mut Vec<(&'a Node, f64, [f64; 2])>,
     work: &mut Vec<(&'a Node, f64, [f64; 2])>,
-) {
+)
+    ensures
+        (final(queue)@.len() == 0 && final(work)@.len() == 0) || final(queue)@.len() + final(work)@.len() >= target.get(),
+{
     queue.push((root, 1.0, [1.0; 2]));
     while !(queue.is_empty() && work.is_empty()) && queue.len() + work.len() < target.get() {
         match queue.pop() {
